@@ -319,3 +319,15 @@ Section History.
     - assert (P := hi_ms s' I1). rewrite H in P. apply Permutation_sym, Permutation_nil in P. auto.
   Qed.
 End History.
+
+Arguments hs_h {K} _.
+Arguments hs_pos {K} _ _.
+Arguments hs_key {K} _ _.
+Arguments hs_o {K} _.
+Arguments hs_ms {K} _.
+Arguments OAdd {K} _ _.
+Arguments ODeleteMin {K}.
+Arguments ODelete {K} _.
+Arguments OIncrease {K} _ _.
+Arguments ODecrease {K} _ _.
+Arguments OIncreaseMin {K} _.
